@@ -216,9 +216,10 @@ pub fn profile(prop: &str) -> Profile {
             p.w[W_REWIND] = 0;
             p.w[W_CLONE] = 0;
             p.w[W_DROPARENA] = 0;
-            // the crash enumeration models one writable session of one mapping
-            p.w[W_TRUNC] = 0;
-            p.w[W_REOPEN] = 0;
+            // truncate (unsync) and close + reopen: in a copy-on-write / read-only session the crash image is the
+            // file itself, which must keep what the last writable session left
+            p.w[W_TRUNC] = 2;
+            p.w[W_REOPEN] = 2;
             p.backends = vec![Backend::File];
             p.w[W_SETMIN] = 2;
             p.w[W_DISCARD] = 3;
